@@ -79,6 +79,7 @@ type Term struct {
 type TF struct {
 	Distinct func(a, b *Term) bool // optional: semantic disequality known to the client (region ages)
 	Frame    func(arr, idx *Term) *Term // optional: select(arr, idx) is known to equal select(result, idx)
+	DistinctIdx func(a, b *Term) bool   // optional: disequality usable only for skipping a store below a select
 	tab   map[string]*Term
 	n     int
 	nvar  int
@@ -772,7 +773,7 @@ func (f *TF) Select(a, i *Term) *Term {
 		if a.Args[1] == i {
 			return a.Args[2]
 		}
-		if f.provablyDistinct(a.Args[1], i) {
+		if f.provablyDistinct(a.Args[1], i) || (f.DistinctIdx != nil && a.Args[1].S.K == KBV && f.DistinctIdx(a.Args[1], i)) {
 			a = a.Args[0]
 			continue
 		}
@@ -1191,9 +1192,14 @@ func collectSyms(t *Term, seen map[*Term]bool, out map[string]bool) {
 		return
 	}
 	if (t.Op == "select" || t.Op == "store") && len(t.Args) >= 2 && t.Args[0].S.K == KArr && t.Args[0].S.Elem.K == KArr {
+		wild := containsBound(t.Args[1], map[*Term]bool{})
 		for _, r := range rootsOf(t.Args[0]) {
 			if isHub(r) {
-				out[fmt.Sprintf("%s@%d", r.Name, t.Args[1].id)] = true
+				if wild {
+					out[r.Name+"@*"] = true // quantified over regions: relevant to every access of this heap
+				} else {
+					out[fmt.Sprintf("%s@%d", r.Name, t.Args[1].id)] = true
+				}
 			}
 		}
 	}
